@@ -105,6 +105,7 @@ type Contract struct {
 	Props    []string
 	Trusted  string // non-empty: contract is assumed, reason
 	ReplayIn []ReplayInput
+	Dispatch map[string][]string // interface type name -> allowed dynamic types (proved at each invoke)
 }
 
 type ReplayInput struct {
@@ -404,6 +405,19 @@ func (db *SpecDB) loadText(path, text, pkgHint string) error {
 					return fail(l.n, "%v", err)
 				}
 				cur.ReplayIn = append(cur.ReplayIn, ReplayInput{strings.TrimSpace(rest[:i]), e})
+			case "dispatch":
+				col := strings.Index(rest, ":")
+				if col < 0 {
+					return fail(l.n, "dispatch Iface : T1 | T2")
+				}
+				if cur.Dispatch == nil {
+					cur.Dispatch = map[string][]string{}
+				}
+				var alts []string
+				for _, a := range strings.Split(rest[col+1:], "|") {
+					alts = append(alts, strings.TrimSpace(a))
+				}
+				cur.Dispatch[strings.TrimSpace(rest[:col])] = alts
 			case "props":
 				cur.Props = strings.Fields(strings.ReplaceAll(rest, ",", " "))
 			case "trusted":
